@@ -475,6 +475,7 @@ def rule_m9(F):
     """`join` gives what joining the shared vector gives: the script built-in is the standard slice join applied to a snapshot of the
     list (List::to_vec) and the separator it was given - delegation, not a re-implementation of where separators go."""
     from ..registry import registrations
+    from .c08 import deps
     r = RuleResult("C15.M9", "List.join is the std slice join of a snapshot of the list with the given separator", floor=1)
     regs = [g for g in registrations(F) if g["name"] == "join" and "ErasedList" in (g["self_ty"] or "")]
     if not regs:
@@ -491,13 +492,53 @@ def rule_m9(F):
         snap = [bi for bi, t in mir.calls(b) if hir.last(mir.callee(t) or "").startswith("to_vec") and "list" in (mir.callee(t) or "")]
         ok = False
         for bi, t in joins:
-            from .c08 import deps
             a0 = t["args"][0] if t["args"] else None
             a1 = t["args"][1] if len(t["args"]) > 1 else None
             recv_from_snapshot = mir.is_place_op(a0) and any(x in mir.back_calls(b, defs, a0[1][0]) for x in snap)
             sep_is_param = mir.is_place_op(a1) and any(x.split(".")[0] == "arg2" for x in deps(b, defs, a1[1][0]))
             ok = ok or (recv_from_snapshot and sep_is_param)
-        r.inst("join built-in", {"body": b.path, "slice_join_calls": len(joins), "on_snapshot_with_separator_parameter": ok})
+        hand = None
+        if not ok and not joins:
+            # a hand-written loop: the separator goes between consecutive elements, so whether it is written may depend on the
+            # position in the list (a counter, a `first` flag, a peeked next element) but never on the text accumulated so far
+            dom = mir.dominators(b)
+            seps = []
+            for bi, t in mir.calls(b):
+                if hir.last(mir.callee_def(t) or "") in ("push_str", "push", "extend", "write_str") and len(t["args"]) == 2 and mir.is_place_op(t["args"][1]) \
+                        and any(x.split(".")[0] == "arg2" for x in deps(b, defs, t["args"][1][1][0])) and mir.is_place_op(t["args"][0]):
+                    seps.append((bi, t))
+            if seps:
+                hand = True
+                for bi, t in seps:
+                    acc = {x for x in [t["args"][0][1][0]]}
+                    # the local the `&mut accumulator` was taken from
+                    for d in defs.whole_defs(t["args"][0][1][0]):
+                        if d[2] == "assign" and d[3]["rv"]["k"] == "ref":
+                            acc.add(d[3]["rv"]["p"][0])
+                    for si, blk in enumerate(b.blocks):
+                        tt = blk["term"]
+                        if tt["k"] != "switch" or si not in dom[bi]:
+                            continue
+                        if all(s_ == bi or bi in mir.reachable_from(b, s_, stop={si}) for s_ in mir.succs(blk)):
+                            continue  # does not decide whether the separator is written
+                        l = mir.op_local(tt["o"])
+                        if l is None:
+                            continue
+                        feeding, work = set(), [l]
+                        while work:
+                            x = work.pop()
+                            if x in feeding:
+                                continue
+                            feeding.add(x)
+                            for d in defs.defs.get(x, []):
+                                if d[2] == "call":
+                                    work += [a_[1][0] for a_ in d[3]["args"] if mir.is_place_op(a_)]
+                                elif d[2] == "assign":
+                                    work += mir.rv_locals(d[3]["rv"])
+                        if feeding & acc:
+                            hand = False
+        r.inst("join built-in", {"body": b.path, "slice_join_calls": len(joins), "on_snapshot_with_separator_parameter": ok, "hand_written_loop_with_positional_separator": hand})
+        ok = ok or bool(hand)
         if not ok:
             r.bad(b.path, "join is not the slice join of the snapshot", relfile(b.file), b.line,
                   "the `join` built-in does not apply the standard slice join to List::to_vec and its separator parameter: a hand-written loop decides where separators go "
